@@ -240,6 +240,18 @@ def _no_overwrite(ctx, ef):
             h = log["handler"]
             stores = _unconditional_position_stores(h)
             if not stores:
+                # ... or replaces the caught error by a new one (raise X /
+                # self.error(...)): whatever position the caught one had is
+                # gone just the same
+                stores = [x for x in ast.walk(h) if (
+                    isinstance(x, ast.Raise) and x.exc is not None
+                    and not (isinstance(x.exc, ast.Name)
+                             and x.exc.id == h.name))
+                    or (isinstance(x, ast.Expr) and isinstance(
+                        x.value, ast.Call) and isinstance(
+                        x.value.func, ast.Attribute)
+                        and x.value.func.attr == "error")]
+            if not stores:
                 continue
             n += 1
             bad = None
